@@ -41,7 +41,8 @@ struct Node : public MockN2k {
     std::string r; char b[160];
     for (int i = 0; i < nDev; i++) {
       auto &D = Devices[i];
-      snprintf(b, sizeof b, "d%d:%lu:%u:%d:%u:%d:%d ", i, D.PendingTPMsg.PGN, D.PendingTPMsg.Destination, D.PendingTPMsg.DataLen, D.NextDTSequence, D.NextDTSendTime.IsEnabled() ? 1 : 0, D.HasPendingInformation ? 1 : 0);
+      snprintf(b, sizeof b, "d%d:%lu:%u:%d:%u:%d:%d:%d:%d ", i, D.PendingTPMsg.PGN, D.PendingTPMsg.Destination, D.PendingTPMsg.DataLen, D.NextDTSequence, D.NextDTSendTime.IsEnabled() ? 1 : 0, D.HasPendingInformation ? 1 : 0,
+               D.PendingProductInformation.IsEnabled() ? 1 : 0, D.PendingConfigurationInformation.IsEnabled() ? 1 : 0);
       r += b;
     }
     for (int i = 0; i < MaxN2kCANMsgs; i++) {
@@ -55,6 +56,25 @@ struct Node : public MockN2k {
   }
 };
 
+static const char *CFG_MANUF = "verif manufacturer info", *CFG_INST1 = "installation one", *CFG_INST2 = "inst 2";
+// the product / configuration information messages the library answers with (their content is C08's subject, not C10's):
+// captured once from a scratch node configured like every node of this harness, handed to the model by the `info` op
+static std::string g_infoLine;
+static std::string reassembleFP(const std::vector<Frame> &fr) {
+  std::vector<unsigned char> d; unsigned len = fr.empty() ? 0 : fr[0].buf[1];
+  for (size_t k = 0; k < fr.size(); k++) for (int j = k == 0 ? 2 : 1; j < 8; j++) d.push_back(fr[k].buf[j]);
+  if (d.size() > len) d.resize(len);
+  char b[32]; snprintf(b, sizeof b, "%u:%u:", fr.empty() ? 6u : (unsigned)((fr[0].id >> 26) & 7), len); return std::string(b) + hex(d.data(), d.size());
+}
+static void captureInfo() {
+  uint64_t keep = g_now; g_now = 1000;
+  Node *S = new Node(); S->SetDeviceCount(1); S->SetDeviceInformation(1, 130, 25, 2000, 4, 0); S->SetMode(tNMEA2000::N2km_NodeOnly, 20);
+  S->SetConfigurationInformation(CFG_MANUF, CFG_INST1, CFG_INST2); S->EnableForward(false); S->SetN2kCANSendFrameBufSize(60);
+  for (int i = 0; i < 700; i++) { S->ParseMessages(); g_now++; }
+  S->sent.clear(); S->SendProductInformation(0); std::string p = reassembleFP(S->sent);
+  S->sent.clear(); S->SendConfigurationInformation(0); std::string c = reassembleFP(S->sent);
+  g_infoLine = "info " + p + " " + c; delete S; g_now = keep;
+}
 static Node *NN[2] = {nullptr, nullptr};
 static int cur = 0;
 static Node *handlerNode = nullptr;
@@ -376,6 +396,7 @@ static void doReset(const std::vector<std::string> &w, int k) {
   N->SetN2kCANSendFrameBufSize(qsize);
   N->SetN2kCANMsgBufSize(nslots);
   N->SetHandleOnlyKnownMessages(onlyKnown);
+  N->SetConfigurationInformation(CFG_MANUF, CFG_INST1, CFG_INST2);
   N->SetHeartbeatIntervalAndOffset(0);           // heartbeats off (C12's subject)
   N->SetMsgHandler(onMsg);
   handlerNode = N;
@@ -389,12 +410,14 @@ static void doReset(const std::vector<std::string> &w, int k) {
   if (!N->isOpen()) C.fail("harness:not-open", "node did not open");
   monReset(k, N);
   C.out("ok");
+  C.op("%s", g_infoLine.c_str()); C.out("ok");      // tells the model what the node's 126996 / 126998 answers contain
 }
 
 static void exec(const std::string &line) {
   std::vector<std::string> w = split(line);
   if (w.empty()) return;
   if ((w[0] == "reset" || w[0] == "reset2") && w.size() >= 7) { doReset(w, w[0] == "reset" ? 0 : 1); return; }
+  if (w[0] == "info") { if (line != g_infoLine) C.fail("harness:info", "recorded product/configuration information differs from this build's"); return; }   // doReset writes the line itself
   C.op("%s", line.c_str()); C.count("op_" + w[0]); caseDesc += line; caseDesc += ';';
   if (w[0] == "node" && w.size() == 2) { int k = atoi(w[1].c_str()); if (k < 0 || k > 1 || !NN[k]) { C.out("bad-op"); return; } cur = k; C.out("ok"); return; }
   Node *N = NN[cur];
@@ -792,6 +815,7 @@ static void generate(Rng &R, const char *fl) {
 
 int main(int argc, char **argv) {
   C.init(argc, argv);
+  captureInfo();
   C.rule = "case = one or two nodes (reset[/reset2]) with the op sequence of a scripted peer; non-trivial = a TP session ran (RTS/BAM seen in either role); distinct = hash of the op sequence";
 #ifdef N2K_VERIF_T32
   const char *flavor = "t32";
